@@ -27,7 +27,7 @@ def make_plan(seed, run, engine, tier="quick"):
     rng = G.rng_for(seed, "C09", run)
     n, p = int(rng.integers(2, 18)), int(rng.integers(1, 12))
     kind = choice(rng, ["generic", "low_rank", "clustered", "tiny_scale", "huge_scale", "zero_cols",
-                        "one_col", "annihilated"])
+                        "one_col", "annihilated", "mixed_scales"])
     if kind == "one_col":
         p = 1
     X, info = G.gen_X(rng, n, p, density=choice(rng, [1.0, 0.6, 0.3]), scale_decades=0.5)
@@ -49,6 +49,11 @@ def make_plan(seed, run, engine, tier="quick"):
         X = X * 10.0 ** int(rng.integers(3, 7))
     elif kind == "zero_cols":
         X[:, rng.random(p) < 0.4] = 0.0
+    elif kind == "mixed_scales":
+        # columns on widely different scales, small ones stored after large ones and vice versa:
+        # a per-column constant computed through sums over the *whole* stored data loses the
+        # small columns to cancellation (round 3, DESIGN section 9)
+        X = G.sig3(X * 10.0 ** rng.integers(-6, 7, size=p).astype(float), 5)
     elif kind == "annihilated":
         # structured designs whose columns are *exactly* orthogonal to a simple fixed vector
         # (centred integer data: zero column sums; an empty first / last row; balanced
